@@ -149,7 +149,7 @@ type Op struct {
 	Obj     int
 	Obj2    int // relations: the other loop/polygon; TIndex target: the target index object
 	P, Q    s2.Point
-	Cell    s2.Cell
+	Cell    CellArg
 	Cells   []s2.CellID
 	Model   s2.VertexModel
 	ShapeID int
@@ -175,7 +175,7 @@ func (op *Op) String() string {
 			s += fmt.Sprintf(",limit=%g", float64(op.Limit))
 		}
 	case QContainsCell, QIntersectsCell:
-		s += "," + op.Cell.ID().String()
+		s += "," + op.Cell.Cell().ID().String()
 	case QContainingShapes, QShapeContains, QContainsPoint:
 		s += fmt.Sprintf(",model=%d", int(op.Model))
 	}
@@ -200,6 +200,16 @@ func orderIndependent(a Ans) Ans {
 	}
 	return a
 }
+
+// CellArg names a cell without computing it: the level-L ancestor of the leaf cell containing P.
+// The cell itself is computed where the query runs (inside the task), as a caller would, and not
+// while the world is drawn.
+type CellArg struct {
+	P s2.Point
+	L int
+}
+
+func (c CellArg) Cell() s2.Cell { return s2.CellFromCellID(s2.CellFromPoint(c.P).ID().Parent(c.L)) }
 
 // Ans is an encoded answer; compared word for word.
 type Ans []uint64
@@ -281,7 +291,7 @@ func targetCalls(op *Op, world []*Obj, shared bool) tcalls {
 		}
 	case TCell:
 		if far {
-			mk := memo(shared, func() *s2.MaxDistanceToCellTarget { return s2.NewMaxDistanceToCellTarget(op.Cell) })
+			mk := memo(shared, func() *s2.MaxDistanceToCellTarget { return s2.NewMaxDistanceToCellTarget(op.Cell.Cell()) })
 			return tcalls{
 				func(q *s2.EdgeQuery) []s2.EdgeQueryResult { return q.FindEdges(mk()) },
 				func(q *s2.EdgeQuery) s1.ChordAngle { return q.Distance(mk()) },
@@ -289,7 +299,7 @@ func targetCalls(op *Op, world []*Obj, shared bool) tcalls {
 				func(q *s2.EdgeQuery, l s1.ChordAngle) bool { return q.IsConservativeDistanceGreaterOrEqual(mk(), l) },
 			}
 		}
-		mk := memo(shared, func() *s2.MinDistanceToCellTarget { return s2.NewMinDistanceToCellTarget(op.Cell) })
+		mk := memo(shared, func() *s2.MinDistanceToCellTarget { return s2.NewMinDistanceToCellTarget(op.Cell.Cell()) })
 		return tcalls{
 			func(q *s2.EdgeQuery) []s2.EdgeQueryResult { return q.FindEdges(mk()) },
 			func(q *s2.EdgeQuery) s1.ChordAngle { return q.Distance(mk()) },
@@ -381,14 +391,14 @@ func execQuery(world []*Obj, op *Op, qs *Queries) Ans {
 		}
 	case QContainsCell:
 		if o.Kind == OLoop {
-			return Ans{b2u(o.Loop.ContainsCell(op.Cell))}
+			return Ans{b2u(o.Loop.ContainsCell(op.Cell.Cell()))}
 		}
-		return Ans{b2u(o.Poly.ContainsCell(op.Cell))}
+		return Ans{b2u(o.Poly.ContainsCell(op.Cell.Cell()))}
 	case QIntersectsCell:
 		if o.Kind == OLoop {
-			return Ans{b2u(o.Loop.IntersectsCell(op.Cell))}
+			return Ans{b2u(o.Loop.IntersectsCell(op.Cell.Cell()))}
 		}
-		return Ans{b2u(o.Poly.IntersectsCell(op.Cell))}
+		return Ans{b2u(o.Poly.IntersectsCell(op.Cell.Cell()))}
 	case QRelContains:
 		if o.Kind == OLoop {
 			return Ans{b2u(o.Loop.Contains(world[op.Obj2].Loop))}
@@ -562,7 +572,7 @@ func execQuery(world []*Obj, op *Op, qs *Queries) Ans {
 		if found {
 			a = append(a, uint64(it.CellID()))
 		}
-		rel := it.LocateCellID(op.Cell.ID())
+		rel := it.LocateCellID(op.Cell.Cell().ID())
 		a = append(a, uint64(rel))
 		return a
 	}
@@ -617,11 +627,12 @@ func probePoint(g *gen.G, d *ObjDesc) s2.Point {
 	return g.Point()
 }
 
-func probeCell(g *gen.G, d *ObjDesc) s2.Cell {
-	if g.T.Chance(700) {
-		return g.CellNear(d.Center, d.Radius*1.3)
+func probeCell(g *gen.G, d *ObjDesc) CellArg {
+	t := g.T
+	if t.Chance(700) {
+		return CellArg{P: g.PointNear(d.Center, d.Radius*1.3), L: int(t.Uint(20))}
 	}
-	return g.Cell()
+	return CellArg{P: g.Point(), L: int(t.Uint(31))}
 }
 
 func drawEQOpts(g *gen.G) EQOpts {
